@@ -1,6 +1,9 @@
 //go:build verif
 
-// Contracts for package message (checked by /verif/govc; comment-only, compiled only with -tags verif).
+// Contracts for package message (checked by /verif/govc; compiled only with -tags verif).
+// Besides the //@ contract comments this file holds ghost lemma functions: Go functions with an
+// empty effect whose contract is a lemma and whose loop invariant is the induction; they are
+// verified like any other function and "called" where the lemma is needed.
 package message
 
 // ---- option header layout (RFC 7252 section 3.1) -----------------------------------------------
@@ -174,3 +177,56 @@ package message
 //@ func ValidateType(typ Type) (r bool)
 //@   ensures [wire-range] r <==> (0 <= typ && typ <= 3)
 //@   known-finding [wire-range] D3: 4 <= typ && typ <= 255
+//
+// ---- lemma: the reference parser reads an encoding back -----------------------------------------
+//
+// If d carries the encoding of the option list L (layout predicates in the current state) followed
+// by the end of data or the payload marker, then the reference parser finds exactly the options of
+// L at the encoder's offsets. Proved by induction on the option index (the ghost loop below).
+//
+//@ spec optAtNow(b []byte, p int, o Options, j int) bool = hdrAt(b, p, delta(o, j), len(o[j].Value)) && bytesEq(b[p + 1 + hs(delta(o, j)) + hs(len(o[j].Value)) : p + optSize(o, j)], o[j].Value)
+//@ spec optsAtNow(b []byte, o Options) bool = forall j int :: {encLen(o, j)} 0 <= j && j < len(o) ==> 0 <= encLen(o, j) && encLen(o, j) + optSize(o, j) <= encLen(o, len(o)) && optAtNow(b, encLen(o, j), o, j)
+//@ spec legalOpts(o Options, defs map[OptionID]OptionDef) bool = forall j int :: {o[j].ID} 0 <= j && j < len(o) ==> o[j].ID != 0 && kept(defs, o[j].ID, len(o[j].Value))
+//@ spec parsedAs(d []byte, o Options, defs map[OptionID]OptionDef, k int) bool = rawStart(d, k) == encLen(o, k) && rawNum(d, k) == prevID(o, k) && nKept(d, defs, k) == k
+//@ spec parsedOpt(d []byte, o Options, defs map[OptionID]OptionDef, j int) bool = rawOK(d, j) && keptRaw(d, defs, j) && rawLen(d, rawStart(d, j)) == len(o[j].Value) && rawValPos(d, j) == encLen(o, j) + 1 + hs(delta(o, j)) + hs(len(o[j].Value))
+//
+//@ func VerifParseOfEncoding(d []byte, o Options, defs map[OptionID]OptionDef)
+//@   requires wfOptions(o) && legalOpts(o, defs) && optsAtNow(d, o)
+//@   requires 0 <= encLen(o, len(o)) && encLen(o, len(o)) <= len(d) && (len(d) == encLen(o, len(o)) || d[encLen(o, len(o))] == 255)
+//@   modifies nothing
+//@   ensures [starts] forall j int :: {rawStart(d, j)} 0 <= j && j <= len(o) ==> parsedAs(d, o, defs, j)
+//@   ensures [options] forall j int :: {rawStart(d, j)} 0 <= j && j < len(o) ==> parsedOpt(d, o, defs, j)
+//@   ensures [terminal] terminal(d, rawStart(d, len(o)))
+//@   ensures [unique] forall K int :: {rawStart(d, K)} K >= 0 && prefixOK(d, K) ==> K <= len(o) && (terminal(d, rawStart(d, K)) ==> K == len(o)) && (rawOK(d, K) ==> K < len(o))
+//@   loop 0:
+//@     invariant 0 <= k && k <= len(o) && k == #iter
+//@     invariant parsedAs(d, o, defs, k)
+//@     invariant forall j int :: {rawStart(d, j)} 0 <= j && j < k ==> parsedAs(d, o, defs, j) && parsedOpt(d, o, defs, j)
+//@     apply k < len(o) ==> VerifHeaderParse(d, encLen(o, k), delta(o, k), len(o[k].Value))
+//@     assert [s1] k < len(o) ==> rawLen(d, rawStart(d, k)) == len(o[k].Value) && rawValPos(d, k) == encLen(o, k) + 1 + hs(delta(o, k)) + hs(len(o[k].Value))
+//@     assert [s0] k < len(o) ==> rawNum(d, k + 1) == o[k].ID && o[k].ID != 0 && kept(defs, o[k].ID, len(o[k].Value))
+//@     assert [s2] k < len(o) ==> rawOK(d, k)
+//@     assert [s3] k < len(o) ==> keptRaw(d, defs, k)
+//@     assert [step] k < len(o) ==> parsedOpt(d, o, defs, k)
+//@     unfold rawStart(d, k), rawNum(d, k), nKept(d, defs, k), encLen(o, k), rawStart(d, k + 1), rawNum(d, k + 1), nKept(d, defs, k + 1), encLen(o, k + 1)
+//@     decreases len(o) - k
+
+// VerifParseOfEncoding is a ghost lemma (see the contract above); it has no effect.
+func VerifParseOfEncoding(d []byte, o Options, defs map[OptionID]OptionDef) {
+	for k := 0; k < len(o); k++ {
+	}
+}
+
+// ---- lemma: one option header written by the encoder is read back by the reference parser -------
+//
+//@ func VerifHeaderParse(d []byte, p int, dl int, l int)
+//@   requires 0 <= p && 0 <= dl && dl <= 65804 && 0 <= l && l <= 65804 && p + 1 + hs(dl) + hs(l) <= len(d)
+//@   requires hdrAt(d, p, dl, l)
+//@   modifies nothing
+//@   ensures [delta] rawDelta(d, p) == dl
+//@   ensures [length] rawLen(d, p) == l
+//@   ensures [hdr] rawHdr(d, p) == 1 + hs(dl) + hs(l)
+//@   ensures [nibbles] d[p] != 255 && d[p] / 16 != 15 && d[p] % 16 != 15
+
+// VerifHeaderParse is a ghost lemma (see the contract above); it has no effect.
+func VerifHeaderParse(d []byte, p int, dl int, l int) {}
